@@ -351,8 +351,15 @@ Definition name_of (nb : bytes) : bytes :=
 Fixpoint read_u32s (n : nat) (d : bytes) : list N :=
   match n with O => [] | S k => unle (firstn 4 d) :: read_u32s k (skipn 4 d) end.
 
+(* Switch for the repair notes/fixes/c06-pipeline-v2-filter-name.patch (the same switch as Model/CodecFilter.v
+   pipeline_v2_names, property C06): [false] = the code before it (outside the version 1 layout no filter has a name-length
+   field), [true] = the repaired code (a name-length field and an unpadded name also for identifiers >= 256 of a genuine
+   version 2 message).  [parse_filters] / [parse_msg] are the variants of [filters_v2_names]; the tie reads from the source
+   tree under test which variant it implements (tools/props/c06switch.py). *)
+Definition filters_v2_names : bool := true.
+
 (* loop body of ParseFilterPipelineMessage; [d] = data[offset:] *)
-Fixpoint parse_filters (n : nat) (v1 : bool) (ver : N) (d : bytes) : outcome (list fdesc) :=
+Fixpoint parse_filters_gen (rep : bool) (n : nat) (v1 : bool) (ver : N) (d : bytes) : outcome (list fdesc) :=
   match n with
   | O => Ok []
   | S k =>
@@ -360,14 +367,15 @@ Fixpoint parse_filters (n : nat) (v1 : bool) (ver : N) (d : bytes) : outcome (li
     else
       let id := unle (firstn 2 d) in
       let d := skipn 2 d in
-      let nl := if v1 then unle (firstn 2 d) else 0 in
-      let d := if v1 then skipn 2 d else d in
+      let hasName := v1 || (rep && (256 <=? id)) in
+      let nl := if hasName then unle (firstn 2 d) else 0 in
+      let d := if hasName then skipn 2 d else d in
       let flags := unle (firstn 2 d) in
       let d := skipn 2 d in
       let ncd := unle (firstn 2 d) in
       let d := skipn 2 d in
-      let named := v1 && (0 <? nl) in
-      let padded := if nl mod 8 =? 0 then nl else nl + (8 - nl mod 8) in   (* computed as int: no 16-bit wrap *)
+      let named := hasName && (0 <? nl) in
+      let padded := if v1 then (if nl mod 8 =? 0 then nl else nl + (8 - nl mod 8)) else nl in   (* computed as int: no 16-bit wrap *)
       if named && (N.of_nat (length d) <? padded) then Err   (* filter name truncated *)
       else
         let name := if named then name_of (firstn (N.to_nat nl) d) else [] in
@@ -378,22 +386,24 @@ Fixpoint parse_filters (n : nat) (v1 : bool) (ver : N) (d : bytes) : outcome (li
           let d := skipn (4 * N.to_nat ncd) d in
           let d := if (0 <? ncd) && (ver =? 1) && negb ((4 * ncd) mod 8 =? 0)
                    then skipn (N.to_nat (8 - (4 * ncd) mod 8)) d else d in
-          bind (parse_filters k v1 ver d) (fun rest => Ok (mk_fdesc id nl flags ncd name cd :: rest))
+          bind (parse_filters_gen rep k v1 ver d) (fun rest => Ok (mk_fdesc id nl flags ncd name cd :: rest))
   end.
+Definition parse_filters : nat -> bool -> N -> bytes -> outcome (list fdesc) := parse_filters_gen filters_v2_names.
 
 Definition all_zero (b : bytes) : bool := forallb (fun x => x =? 0) b.
 
 (* ParseFilterPipelineMessage (repaired: the writer's own layout is recognised); result = (version, numFilters, filters) *)
-Definition parse_msg (data : bytes) : outcome (N * N * list fdesc) :=
+Definition parse_msg_gen (rep : bool) (data : bytes) : outcome (N * N * list fdesc) :=
   match data with
   | ver :: nf :: body =>
     if (ver <? 1) || (2 <? ver) then Err
     else
       let v1 := (ver =? 1) || ((ver =? 2) && (0 <? nf) && (6 <=? length body)%nat && all_zero (firstn 6 body)) in
       let d := if v1 then skipn 6 body else body in
-      bind (parse_filters (N.to_nat nf) v1 ver d) (fun fs => Ok (ver, nf, fs))
+      bind (parse_filters_gen rep (N.to_nat nf) v1 ver d) (fun fs => Ok (ver, nf, fs))
   | _ => Err                                                 (* message too short *)
   end.
+Definition parse_msg : bytes -> outcome (N * N * list fdesc) := parse_msg_gen filters_v2_names.
 
 (* utils.MaxChunkSize = 1 GiB *)
 Definition max_chunk_size : N := 1073741824.
